@@ -1,7 +1,7 @@
 (** C10 — Invalid parameters are rejected with an error; accepted instances never panic. *)
 From Yata Require Import Base.Prelude Base.Num Base.NumR Core.Window Core.WindowSpec Core.Candle Core.Strings
   Spec.Hist Methods.Basic Methods.Select Methods.Convert Indicators.Common Indicators.Set1 Indicators.Set2 Indicators.Set3 Indicators.Set4 Indicators.Set5
-  Proofs.MethodsCommon Proofs.Totality Proofs.Totality2 Proofs.Totality3 Proofs.StringsProofs.
+  Proofs.MethodsCommon Proofs.Totality Proofs.Totality2 Proofs.Totality3 Proofs.Totality4 Proofs.StringsProofs.
 Open Scope Z_scope.
 
 Section C10.
@@ -159,3 +159,13 @@ Proof. exact (eom_cap ma p2 k s). Qed.
 Theorem C10_cap_tsx period zone offset src k s : tsx_init period zone offset src k = Ok s -> cap_ok period.
 Proof. exact (tsx_cap period zone offset src k s). Qed.
 End C10i.
+
+From Coq Require Import Reals.
+(** [next] of an accepted instance: the only window INDEX read in an indicator (TrendStrengthIndex, window[reverse_offset]) is in
+    range in every reachable state, so the [next] of the model never takes the totalised default of that read *)
+Theorem C10_trend_strength_index_read_in_range {pw : PW} period (zone : @F NumR) offset src (c0 : candle (N := NumR)) cs c :
+  1 < period < pmax -> (0 <= zone < 1)%R -> 0 < offset < period -> 4 < pmax ->
+  exists s0, tsx_init period zone offset src c0 = Ok s0 /\
+    let st := steps tsx_next s0 cs in
+    exists v, w_index (fst (w_push_t (tz_window st) (c_source c (tz_source st)))) (tz_offset st) = Ok v.
+Proof. exact (tsx_index_in_range period zone offset src c0 cs c). Qed.
